@@ -5,6 +5,7 @@ import (
 	"context"
 	"fmt"
 	"io"
+	"math"
 
 	"github.com/github/go-pipe/pipe"
 )
@@ -65,8 +66,17 @@ func (repo *Repository) NewObjectIter(ctx context.Context) (*ObjectIter, error) 
 
 		// Read the output of `git rev-list --objects`, strip off any
 		// trailing information, and write the OIDs to `git cat-file`:
-		pipe.LinewiseFunction(
+		pipe.ScannerFunction(
 			"copy-oids",
+			func(r io.Reader) (pipe.Scanner, error) {
+				// The paths that follow the OIDs can be arbitrarily
+				// long, so don't use `pipe.LinewiseFunction()`, which
+				// refuses lines longer than 64 kiB:
+				scanner := bufio.NewScanner(r)
+				scanner.Buffer(nil, math.MaxInt32)
+				scanner.Split(pipe.ScanLFTerminatedLines)
+				return scanner, nil
+			},
 			func(_ context.Context, _ pipe.Env, line []byte, stdout *bufio.Writer) error {
 				if len(line) < 40 {
 					return fmt.Errorf("line too short: '%s'", line)
